@@ -168,7 +168,7 @@ TLC_JAR = "/opt/veriftools/tla/tla2tools.jar:/opt/veriftools/tla/CommunityModule
 
 
 def _tlc_cmd(module, cfg, workers, metadir, extra, xmx="6g", deque=False):
-    cmd = ["java", "-XX:+UseParallelGC", "-Xmx" + xmx]
+    cmd = ["java", "-XX:+UseParallelGC", "-Xss256m", "-Xmx" + xmx]   # deep recursive operators over long row lists
     if deque:
         cmd.append("-Dtlc2.tool.queue.IStateQueue=StateDeque")
     cmd += ["-cp", TLC_JAR, "tlc2.TLC", "-workers", str(workers), "-metadir", metadir,
